@@ -96,6 +96,26 @@ func scenariosC04(rng *rand.Rand, thorough bool) []Scenario {
 	// false checkpoint, true filter headers: the client can tell nobody apart and never gets past it
 	add(Scenario{Name: "liarCFCheckpt-only", Len: 1000 + L(), Barrier: true, Deadline: 4 * time.Second, Script: []Event{sleep(300)},
 		Peers: []Behaviour{honest(), {Kind: "liarCFCheckpt", H: 0, Variant: "only"}}})
+	// --- the sync peer lies while an honest candidate is ALREADY connected, and nobody else joins ---
+	{
+		l := L()
+		add(Scenario{Name: "liarSync-pow-midbatch", Len: l, Barrier: true, NoRedial: true, Deadline: 4 * time.Second, Script: []Event{sync, grow(1), sync},
+			Peers: []Behaviour{{Kind: "liarHeaders", H: 3 + rng.Intn(l-4), Variant: "pow"}, honest()}})
+		l = L()
+		add(Scenario{Name: "liarSync-unlinked-first", Len: l, Barrier: true, NoRedial: true, Deadline: 4 * time.Second, Script: []Event{sync, grow(1), sync},
+			Peers: []Behaviour{{Kind: "liarHeaders", H: 2, Variant: "unlinked"}, honest()}})
+		// a block checkpoint below the lie: the first batch (up to the checkpoint) is accepted, the lie is in the second
+		l = L()
+		c := 10 + rng.Intn(l-20)
+		add(Scenario{Name: "liarSync-after-checkpoint", Len: l, Barrier: true, NoRedial: true, Deadline: 4 * time.Second, Checkpts: []int{c}, Script: []Event{sync, grow(1), sync},
+			Peers: []Behaviour{{Kind: "liarHeaders", H: c + 1 + rng.Intn(l-c-1), Variant: "pow"}, honest()}})
+		// the sync peer is on a valid branch that does not contain the checkpointed block
+		l = L()
+		d := 6 + rng.Intn(4)
+		add(Scenario{Name: "liarSync-checkpoint-mismatch", Len: l, Barrier: true, NoRedial: true, Deadline: 4 * time.Second, Checkpts: []int{l - d + 2 + rng.Intn(3)},
+			Script: []Event{sync, grow(1), sync},
+			Peers:  []Behaviour{{Kind: "lighterFork", H: d, N: d - 1}, honest()}})
+	}
 	return out
 }
 
